@@ -119,10 +119,14 @@ class ClohessyWiltshire(AnalyticalPropagator):
         # from the date of a maneuver
         epoch = orb.date
 
+        # Acceleration of the continuous maneuver in progress at the date of
+        # propagation, if any
+        accel = None
+
         # Maneuvers handling
         for man in self.orbit.maneuvers:
             if isinstance(man, ImpulsiveMan) and epoch <= man.date < date:
-                orb = self._propagate(man.date, orb)
+                orb = self._propagate(man.date, orb, accel)
                 orb[3:] += man.dv(orb)
             elif (
                 isinstance(man, ContinuousMan)
@@ -132,13 +136,15 @@ class ClohessyWiltshire(AnalyticalPropagator):
                 if orb.date < man.start:
                     orb = self._propagate(man.start, orb)
                 if man.check(date):
-                    # If the date of propagation is during a continuous maneuver
-                    return self._propagate(date, orb, man.accel(orb))
+                    # If the date of propagation is during a continuous maneuver,
+                    # the thrust lasts until then. Impulsive maneuvers occuring
+                    # in the meantime are still to be handled
+                    accel = man.accel(orb)
                 else:
                     # If the date of propagation is after a continuous maneuver
                     orb = self._propagate(man.stop, orb, man.accel(orb))
 
-        return self._propagate(date, orb)
+        return self._propagate(date, orb, accel)
 
     def _propagate(self, date, orb, accel=None):
         """This method does the real legwork of propagation, with acceleration
